@@ -154,6 +154,7 @@ pub fn enum_def(e: &EnumSpec, o: &EnumOpts) -> String {
             }
         }
     }
+    s.push_str("//@item\n");
     let noise = |s: &mut String, slot: u8| {
         for (sl, t) in &e.noise {
             if *sl == slot {
@@ -416,18 +417,19 @@ pub fn glue_string(e: &EnumSpec, name: &str, inst: &str, src: &mut Src, _prop: &
     src.push(&format!("impl vrt::strfam::SGlue for {} {{", ty));
     if e.derives("EnumString") {
         let custom = e.parse_err() && crate::model::default_variant(e).is_none();
-        let (errty, errmap) = if custom {
-            ("vrt::MyErr", "vrt::PObs::Err { debug: format!(\"{:?}\", e), carried: Some(e.0.clone()) }")
-        } else {
-            ("strum::ParseError", "vrt::PObs::Err { debug: format!(\"{:?}\", e), carried: None }")
-        };
+        let errty = if custom { "vrt::MyErr" } else { "strum::ParseError" };
         for (f, call) in [
             ("from_str", "<Self as ::core::str::FromStr>::from_str(s)"),
             ("try_from", "<Self as ::core::convert::TryFrom<&str>>::try_from(s)"),
         ] {
             src.push(&format!("    fn {}(s: &str) -> Option<vrt::PObs> {{", f));
-            src.tagged(&format!("        let r: Result<Self, {}> = {};", errty, call), "C18:error-type");
-            src.push(&format!("        Some(match r {{ Ok(v) => vrt::PObs::ok(&v), Err(e) => {} }})", errmap));
+            if _prop == "C18" {
+                // FromStr::Err / TryFrom::Error are pinned: a different type is a compile error on this line
+                src.tagged(&format!("        let r: Result<Self, {}> = {};", errty, call), "C18:error-type");
+            } else {
+                src.push(&format!("        let r = {};", call));
+            }
+            src.push("        Some(match r { Ok(v) => vrt::PObs::ok(&v), Err(e) => vrt::PObs::err(&e) })");
             src.push("    }");
         }
         if e.parse_err() {
@@ -553,7 +555,7 @@ pub fn module_string(e: &EnumSpec, o: &ModOpts) -> ModuleSrc {
     src.push(&format!("pub mod m_{} {{", e.name.to_lowercase()));
     let clone: &[&str] = &["Clone"];
     let err_path = e.parse_err() && e.hash64() % 2 == 0;
-    let emit_one = |e: &EnumSpec, name: &str, src: &mut Src| {
+    let emit_one = |e: &EnumSpec, name: &str, src: &mut Src, mark_def: bool| {
         let mut eo = enum_opts(e, name);
         if e.use_phf() {
             eo.extra_std_derives = clone;
@@ -561,7 +563,11 @@ pub fn module_string(e: &EnumSpec, o: &ModOpts) -> ModuleSrc {
         if err_path {
             eo.err_fn = "errs::mk_err";
         }
-        src.push(&enum_def(e, &eo));
+        if mark_def {
+            src.ranged("def", |s| s.push(&enum_def(e, &eo)));
+        } else {
+            src.push(&enum_def(e, &eo));
+        }
         let g = generics(e, eo.t_bound, eo.t_inst);
         src.push(&glue_base(e, name, &g.inst));
         glue_string(e, name, &g.inst, src, o.property);
@@ -579,7 +585,7 @@ pub fn module_string(e: &EnumSpec, o: &ModOpts) -> ModuleSrc {
         }
     }
     let name = e.name.clone();
-    let t1 = emit_one(e, &name, &mut src);
+    let t1 = emit_one(e, &name, &mut src, true);
     match o.twin {
         None => {
             src.push(&format!("pub fn run(ctx: &mut vrt::Ctx) {{ {}::<{}>(ctx) }}", o.run_fn, t1));
@@ -619,7 +625,7 @@ pub fn module_string(e: &EnumSpec, o: &ModOpts) -> ModuleSrc {
             let mut t2 = String::new();
             let tag = if tw == Twin::Phf { "C16:phf-twin" } else { "twin" };
             src.ranged(tag, |src| {
-                t2 = emit_one(&e2, &n2, src);
+                t2 = emit_one(&e2, &n2, src, false);
             });
             src.push("}");
             src.push(&format!("pub fn run(ctx: &mut vrt::Ctx) {{ {}::<{}, tw::{}>(ctx) }}", o.run_fn, t1, t2));
@@ -657,7 +663,7 @@ pub fn module_iter(e: &EnumSpec, o: &ModOpts) -> ModuleSrc {
     src.push(&format!("pub mod m_{} {{", e.name.to_lowercase()));
     let name = e.name.clone();
     let eo = enum_opts(e, &name);
-    src.push(&enum_def(e, &eo));
+    src.ranged("def", |s| s.push(&enum_def(e, &eo)));
     let g = generics(e, eo.t_bound, eo.t_inst);
     src.push(&glue_base(e, &name, &g.inst));
     glue_iter(e, &name, &g.inst, &mut src);
@@ -686,7 +692,7 @@ pub fn module_repr(e: &EnumSpec, o: &ModOpts) -> ModuleSrc {
     src.push(&format!("pub mod m_{} {{", e.name.to_lowercase()));
     let name = e.name.clone();
     let eo = enum_opts(e, &name);
-    src.push(&enum_def(e, &eo));
+    src.ranged("def", |s| s.push(&enum_def(e, &eo)));
     let g = generics(e, eo.t_bound, eo.t_inst);
     src.push(&glue_base(e, &name, &g.inst));
     let r = e.repr_int.clone().unwrap_or_else(|| "usize".to_string());
@@ -741,7 +747,7 @@ pub fn module_shape(e: &EnumSpec, o: &ModOpts) -> ModuleSrc {
     src.push(&format!("pub mod m_{} {{", e.name.to_lowercase()));
     let name = e.name.clone();
     let eo = enum_opts(e, &name);
-    src.push(&enum_def(e, &eo));
+    src.ranged("def", |s| s.push(&enum_def(e, &eo)));
     let g = generics(e, eo.t_bound, eo.t_inst);
     src.push(&glue_base(e, &name, &g.inst));
     let ty = format!("{}{}", name, g.inst);
@@ -817,7 +823,7 @@ pub fn module_table(e: &EnumSpec, o: &ModOpts) -> ModuleSrc {
     let mut eo = enum_opts(e, &name);
     let extra: &[&str] = &["Clone", "Copy"];
     eo.extra_std_derives = extra;
-    src.push(&enum_def(e, &eo));
+    src.ranged("def", |s| s.push(&enum_def(e, &eo)));
     src.push(&glue_base(e, &name, ""));
     let n = e.enabled_indices().len();
     let tb = format!("{}Table", name);
@@ -854,7 +860,7 @@ pub fn module_disc(e: &EnumSpec, o: &ModOpts) -> ModuleSrc {
     if !private {
         src.push("pub mod def {");
     }
-    src.push(&enum_def(e, &eo));
+    src.ranged("def", |s| s.push(&enum_def(e, &eo)));
     if !private {
         src.push("}");
         // re-export with the enum's own visibility (a `pub use` of a restricted item is an error)
@@ -935,4 +941,13 @@ pub fn module_disc(e: &EnumSpec, o: &ModOpts) -> ModuleSrc {
     src.push(&format!("pub fn run(ctx: &mut vrt::Ctx) {{ {}::<{}>(ctx) }}", o.run_fn, ty));
     src.push("}");
     ModuleSrc { enum_name: e.name.clone(), src }
+}
+
+/// the enum item alone (attributes + enum), without the helper functions emitted in front of it
+pub fn enum_item(e: &EnumSpec, o: &EnumOpts) -> String {
+    let d = enum_def(e, o);
+    match d.find("//@item\n") {
+        Some(i) => d[i + 8..].to_string(),
+        None => d,
+    }
 }
